@@ -30,6 +30,10 @@ CHECKS = {
    technique="property-based testing (rapid): stateful model-based generation on real singleapp/multiapp files vs a byte-slice model; exhaustive enumeration of short operation sequences on tiny configurations; concurrent readers",
    text="Generated sequences of append/read/set-offset/flush/sync/discard/switch-read-only/close-reopen/copy over generated chunk sizes (4-512 B), write buffers (1-64 B), all retryable-sync x auto-sync modes, preallocation, max-open-files 1-3, every compression format (entry-addressed model), with concurrent readers during appends; after every step offsets, sizes, bytes, EOF semantics, documented errors and metadata equal the model; all sequences of <= L operations over 12 operations are enumerated on 5 tiny configurations.",
    note="Trusted: the byte-slice model. Known findings excluded by class and counted: K3 (rewind not persisted: stale size/bytes after reopen), K17m (metadata > ~3.9 KB lost), K17c (compressed multiapp offset below size), K17r/K17x (multiapp read races; stress probes). F17 (stale read after rewind) repaired and pinned. Injected I/O errors inside singleapp are not reachable without a source hook."),
+ "C11": dict(level="exploration", design="DESIGN.md §2 C11",
+   technique="property-based testing (rapid): grammar-based generation of schemas, DML histories and SELECTs; differential oracles (forced-plan, twin tables without indexes, in-tx/committed/reopened, spill thresholds), metamorphic TLP partitioning, and a naive nested-loop reference executor",
+   text="One case = one generated database (1-3 tables of all column types, composite keys, plain/unique/composite indexes created before or after data, a twin table without secondary indexes receiving the same statements), a generated DML history (insert/upsert/on-conflict/update of indexed columns/delete, failing statements, reopens) and 12-40 generated SELECTs (comparisons, ranges, IN, LIKE, BETWEEN, IS NULL, boolean combinations, ORDER BY, LIMIT/OFFSET, DISTINCT, GROUP BY + aggregates + HAVING, joins, subqueries, UNION, HISTORY OF, period queries). Each query is run through every access path (planner's choice, forced primary key, every forced index, twin, derived-table join), inside the open transaction, after commit on two engines (default and tiny sort/distinct spill thresholds) and after reopen: equal sequences under a total ORDER BY, equal multisets otherwise, every output sorted, error-vs-rows is a disagreement; TLP P / NOT P / P IS NULL partitions rows and COUNT(*); a naive executor checks the unambiguous subset.",
+   note="Trusted: the naive executor and multiset comparison in internal/sqlgen; NULL semantics as implemented by the engine (two-valued comparisons). 18 engine defects found are pinned as probes and excluded by class (counted) until repaired; window functions, CTEs, EXCEPT/INTERSECT, DIFF OF not generated."),
 }
 
 NOT_YET = "check not built yet in this session (work in progress; see DESIGN.md §2 for the planned harness)"
